@@ -16,13 +16,19 @@ func init() {
 					Params: map[string]int64{"reads": r, "steps": 80}}
 			}
 			mkw := func(name string, r int64) gosym.RunConfig { return mkwp(name, "netctx", r) }
+			mkwt := func(name string, r int64) gosym.RunConfig {
+				c := mkwp(name, "netctx", r)
+				c.Entry = "VerifWriteToCtx"
+				return c
+			}
 			out := []gosym.RunConfig{mk("netctx-read-w1", "netctx", "VerifReadCtx", 1), mk("connctx-read-w1", "connctx", "VerifReadCtx", 1),
 				mk("netctx-readfrom-w1", "netctx", "VerifReadFromCtx", 1),
 				// no data at all: the cancelled operation can only return through the forced deadline
 				mk("netctx-read-w0", "netctx", "VerifReadCtx", 0), mk("connctx-read-w0", "connctx", "VerifReadCtx", 0),
 				mk("netctx-readfrom-w0", "netctx", "VerifReadFromCtx", 0),
 				mkw("netctx-write-r0", 0), mkw("netctx-write-r1", 1), mkw("netctx-write-r2", 2), mkw("netctx-write-r3", 3),
-				mkwp("connctx-write-r0", "connctx", 0), mkwp("connctx-write-r2", "connctx", 2), mkwp("connctx-write-r3", "connctx", 3)}
+				mkwp("connctx-write-r0", "connctx", 0), mkwp("connctx-write-r2", "connctx", 2), mkwp("connctx-write-r3", "connctx", 3),
+				mkwt("netctx-writeto-r0", 0), mkwt("netctx-writeto-r2", 2), mkwt("netctx-writeto-r3", 3)}
 			if tier == "thorough" {
 				// two packets: explored within a time budget (reported as not covered when exceeded)
 				for _, c := range []gosym.RunConfig{mk("netctx-read-w2", "netctx", "VerifReadCtx", 2), mk("connctx-read-w2", "connctx", "VerifReadCtx", 2)} {
@@ -33,7 +39,7 @@ func init() {
 			return out
 		},
 		Bounds: func(tier string) []string {
-			return []string{"netctx.Conn.WriteContext and connctx.ConnCtx.WriteContext: one writer goroutine performing two one-byte WriteContext calls (first context cancelled at an arbitrary moment, second live) on a wrapped connection whose Write blocks while its one-slot channel is occupied (one earlier byte in flight) or until the write deadline (real deadline.Deadline) passes, a drainer goroutine taking 0..3 bytes; every interleaving",
+			return []string{"netctx.Conn.WriteContext, netctx.PacketConn.WriteToContext and connctx.ConnCtx.WriteContext: one writer goroutine performing two one-byte WriteContext / WriteToContext calls (first context cancelled at an arbitrary moment, second live) on a wrapped connection whose Write blocks while its one-slot channel is occupied (one earlier byte in flight) or until the write deadline (real deadline.Deadline) passes, a drainer goroutine taking 0..3 bytes; every interleaving",
 				"netctx.Conn.ReadContext, netctx.PacketConn.ReadFromContext and connctx.ConnCtx.ReadContext: one reader goroutine performing two ReadContext calls (first context cancelled by a canceller goroutine at an arbitrary moment, second context live), one writer goroutine delivering 0 or 1 (thorough also 2) one-byte packets, the watcher goroutines the wrapper starts; every interleaving at lock / channel / select / atomic granularity"}
 		},
 		Assume: []string{
@@ -41,5 +47,5 @@ func init() {
 			"context.Context is a harness model: Done is closed by the canceller goroutine, Err reports Canceled exactly when Done is closed",
 			"goroutines run atomically between scheduling points; timers are a model",
 		},
-		Outside: []string{"WriteToContext (packet flavour)", "net.Pipe and OS sockets as the wrapped connection", "context deadlines (timeouts) as opposed to cancellation"}})
+		Outside: []string{"net.Pipe and OS sockets as the wrapped connection", "context deadlines (timeouts) as opposed to cancellation"}})
 }
